@@ -17,6 +17,26 @@ LETTER = {'cleared': 'o', 'failed': 'x', 'passed': '-', 'retired': 'r'}
 TRIALS = ('cleared', 'failed', 'passed', 'retired')
 
 
+def _printed(c):
+    import contextlib
+    import io
+    with contextlib.redirect_stdout(io.StringIO()):
+        c.print_ranking()
+
+
+READERS = {
+    'to_matrix': lambda c: c.to_matrix(),
+    'to_matrix-with-bib': lambda c: c.to_matrix(['bib']),
+    'trials': lambda c: list(c.trials),
+    'trial_objs': lambda c: list(c.trial_objs),
+    'remaining': lambda c: list(c.remaining),
+    'eliminated': lambda c: list(c.eliminated),
+    'is_finished+is_running': lambda c: (c.is_finished, c.is_running),
+    'standings': lambda c: [(j.place, j.ranking_key, j.has_retired) for j in c.ranked_jumpers],
+    'print_ranking': _printed,
+}
+
+
 # --------------------------------------------------------------------------- snapshots / clone
 def jumper_pub(j):
     return (j.bib, tuple(j.attempts_by_height), j.highest_cleared, j.place, j._place, j.eliminated, j.dismissed,
@@ -207,6 +227,7 @@ class Monitor(object):
         self.busy = 0
         self.rnd = random.Random(ctx.seed + 17)
         self.nreplay = 0
+        self.ncalls = 0
         self.seen_pairs = set()
         for name in ('add_jumper', 'set_bar_height') + TRIALS:
             self.wrap(name)
@@ -222,12 +243,35 @@ class Monitor(object):
                 r = raw(comp, *a, **k)
             except Exception as e:
                 mon.after(comp, name, a, k, pre, e)
+                mon.probe_readers(comp)
                 raise
             mon.after(comp, name, a, k, pre, None)
+            mon.probe_readers(comp)
             return r
         wrapper.__name__ = name
         wrapper.__vf_original__ = raw
         setattr(self.H, name, wrapper)
+
+    def probe_readers(self, comp):
+        """Looking at a competition (field card, trials, standings, printed ranking) must not change it: every 8th monitored
+        call each read accessor is used once, with a snapshot in between."""
+        self.ncalls += 1
+        if self.ncalls % 8 or self.busy:
+            return
+        ctx = self.ctx
+        s0 = snap(comp)
+        for nm in sorted(READERS):
+            try:
+                READERS[nm](comp)
+            except Exception:
+                ctx.count('unjudged.read-accessor-raised')
+                continue
+            ctx.count('eval.read-accessor-probe')
+            s1 = snap(comp)
+            if s1 != s0:
+                ctx.violation('read-accessor-changes-the-competition:%s:%s' % (nm, '+'.join(snap_diff(s0, s1))[:80]),
+                              self.describe(self.shadow(comp), 'read', nm), 'unchanged', snap_diff(s0, s1))
+                s0 = s1
 
     @staticmethod
     def arg(name, a, k):
@@ -253,7 +297,9 @@ class Monitor(object):
                 'mr': must_refuse(sh, places, name, arg) if known and not sh.why_irregular == 'first observed mid-life' else None}
 
     def describe(self, sh, name, arg):
-        return {'history': [[m, str(v) if not isinstance(v, dict) else v] for m, v in sh.log], 'call': [name, str(arg)]}
+        def j(v):
+            return v if isinstance(v, (dict, int)) and not isinstance(v, bool) else str(v)
+        return {'history': [[m, j(v)] for m, v in sh.log], 'call': [name, j(arg)]}
 
     def after(self, comp, name, a, k, pre, exc):
         ctx = self.ctx
@@ -621,6 +667,8 @@ class Monitor(object):
 
 # --------------------------------------------------------------------------- explorer
 BIBS = 'ABCD'
+# start lists as callers number them: letters, integers from 0 (a falsy bib), digit strings that differ only by leading zeros
+BIB_SETS = {'letters': (list('ABCD'), 'E'), 'int0': ([0, 1, 2, 3], 4), 'zeros': (['0', '00', '1', '01'], '10')}
 
 
 class Explorer(object):
@@ -636,10 +684,15 @@ class Explorer(object):
         self.fine_bars = False
         self.base_height = D('1.00')
         self.float_heights = False
+        self.bibs = list(BIBS)        # the start list's bib vocabulary (see BIB_SETS)
+        self.extra_bib = 'E'
+
+    def use_bibs(self, name):
+        self.bibs, self.extra_bib = BIB_SETS[name]
 
     def start(self, nj):
         c = self.H()
-        for b in BIBS[:nj]:
+        for b in self.bibs[:nj]:
             c.add_jumper(bib=b)
         return c
 
@@ -667,8 +720,8 @@ class Explorer(object):
                     if tb is not None and ('set_bar_height', tb) not in out:
                         out.append(('set_bar_height', tb))                                       # exactly the tied best
         if not legal_only:
-            out.append(('add_jumper', BIBS[0]))
-            out.append(('add_jumper', 'Z'))
+            out.append(('add_jumper', self.bibs[0]))
+            out.append(('add_jumper', self.extra_bib))
         for b in list(sh.bibs):
             for m in TRIALS:
                 out.append((m, b))
@@ -747,7 +800,7 @@ class Explorer(object):
     def walk(self, nj, maxlen=120, legal_bias=0.8, max_reg=4, max_jo=3):
         c = self.H()
         sh = self.mon.shadow(c)
-        bibs = list(BIBS[:nj])
+        bibs = list(self.bibs[:nj])
         rnd = self.rnd
         for step in range(maxlen):
             r = rnd.random()
@@ -768,7 +821,7 @@ class Explorer(object):
                     a = rnd.choice([D('1.00'), D('1.50'), D('0.00'), D('1.20'), D('9.90'), D('99.95'), D('181.00'), D('0.50'), D('1.9812')])
             elif r < 0.26:
                 m = 'add_jumper'
-                a = rnd.choice(bibs + ['E'])
+                a = rnd.choice(bibs + [self.extra_bib])
             else:
                 m = rnd.choice(['cleared', 'failed', 'failed', 'failed', 'passed', 'retired'] if rnd.random() < 0.9 else ['retired', 'passed'])
                 a = rnd.choice(sh.bibs)
@@ -841,7 +894,7 @@ class Explorer(object):
         self.states += 1
         return c
 
-    def jumpoff_scenario(self, nj, max_jo=3):
+    def jumpoff_scenario(self, nj, max_jo=3, scripted=False):
         """A rule-conforming competition built to end in a jump-off: K athletes with identical cards tie for first, the
         others have the same best with more failures, a lower best or no clearance; then up to max_jo jump-off heights with
         the bar at, next to, below or above the tied best and random single attempts until it is decided."""
@@ -890,10 +943,32 @@ class Explorer(object):
                 break
             tb = self.tied_best(sh) or h
             bar = rnd.choice([tb, tb, tb + D('0.01'), tb - D('0.02'), c.heights[-1], c.heights[-1] - D('0.02'), c.heights[-1] + D('0.02'), tb + D('0.02')])
+            if scripted and rnd.random() < 0.8:
+                # a long jump-off whose bars never separate the bests (at or below the tied best): who is still in depends
+                # on the jump-off rounds alone
+                bar = rnd.choice([tb, tb, tb - D('0.02'), tb - D('0.05'), min(tb, c.heights[-1]), min(tb, c.heights[-1] - D('0.02'))])
             if bar <= 0 or not self.apply(c, 'set_bar_height', bar):
                 break
             parts = list(sh.jo_participants or [])
             rnd.shuffle(parts)
+            if scripted and len(parts) >= 2:
+                # round patterns: all clear / some (not all) fail and are knocked out / all fail / all retire
+                r = rnd.random()
+                if r < 0.35:
+                    marks = ['cleared'] * len(parts)
+                elif r < 0.75:
+                    k = rnd.randrange(1, len(parts))
+                    marks = ['failed'] * k + ['cleared'] * (len(parts) - k)
+                elif r < 0.92:
+                    marks = ['failed'] * len(parts)
+                else:
+                    marks = [rnd.choice(['retired', 'failed']) for _ in parts]
+                for b, m in zip(parts, marks):
+                    if c.state != 'jumpoff':
+                        break
+                    if not must_refuse(sh, {j.bib: j.place for j in c.jumpers}, m, b):
+                        self.apply(c, m, b)
+                continue
             for b in parts:
                 if c.state != 'jumpoff':
                     break
@@ -912,7 +987,7 @@ class Explorer(object):
         rnd = self.rnd
         c = self.H()
         sh = self.mon.shadow(c)
-        for b in BIBS[:nj]:
+        for b in self.bibs[:nj]:
             c.add_jumper(bib=b)
         h = D('1.00')
         strings = ['o', 'o', 'xo', 'xxo', 'xxx', 'x-', 'xx-', '-', 'r', 'xr', 'xxr', 'x', 'xx', '']
@@ -955,6 +1030,9 @@ class Explorer(object):
                     plan[b] = list(s)
             # jumping order: random interleaving of the athletes' sequences
             while any(plan.values()):
+                if not in_jo and rnd.random() < 0.04 and c.state == 'started':
+                    # an official mistypes the next bar (1.57 for 1.75): refused, and nothing may be left behind by it
+                    self.apply(c, 'set_bar_height', c.heights[-1] - rnd.choice([D('0.18'), D('0.05'), D('0'), D('1.00')]))
                 b = rnd.choice([b for b, q in plan.items() if q])
                 t = plan[b].pop(0)
                 m = {'o': 'cleared', 'x': 'failed', '-': 'passed', 'r': 'retired'}[t]
